@@ -17,7 +17,10 @@
 (***************************************************************************)
 EXTENDS Naturals, Sequences, FiniteSets, TLC
 
-CONSTANTS Norm        \* TRUE: repaired code | FALSE: original code (mutant)
+CONSTANTS Norm        \* how a tool canonicalises the path it was given before deriving a default output from it:
+                      \*   "abspath"  (repaired code, second repair)  os.path.abspath: resolved against the working directory
+                      \*   "normpath" (first repair)                  os.path.normpath: "." and ".." stay when nothing is left to cancel
+                      \*   "none"     (original code)                 the raw text
 
 Rng(s) == {s[i] : i \in DOMAIN s}
 Last(s) == s[Len(s)]
@@ -26,8 +29,24 @@ Front(s) == SubSeq(s, 1, Len(s) - 1)
 -----------------------------------------------------------------------------
 (* Part 1: paths *)
 Path(abs, comps, trail) == [abs |-> abs, comps |-> comps, trail |-> trail]
-\* os.path.normpath for our purposes: drop the trailing separator
-Normpath(p) == [p EXCEPT !.trail = FALSE]
+Dot == <<".">>
+DotDot == <<"..">>
+\* os.path.normpath: drop the trailing separator and "." components, cancel "x/.." pairs; leading ".." of a relative path stay,
+\* "/.." is "/", and a relative path with nothing left is "."
+RECURSIVE NormComps(_, _, _)
+NormComps(cs, acc, abs) ==
+  IF cs = <<>> THEN acc
+  ELSE LET c == Head(cs) IN
+       IF c = Dot THEN NormComps(Tail(cs), acc, abs)
+       ELSE IF c = DotDot
+            THEN (IF acc # <<>> /\ Last(acc) # DotDot THEN NormComps(Tail(cs), Front(acc), abs)
+                  ELSE IF abs THEN NormComps(Tail(cs), acc, abs)
+                  ELSE NormComps(Tail(cs), Append(acc, DotDot), abs))
+            ELSE NormComps(Tail(cs), Append(acc, c), abs)
+Normpath(p) == LET n == NormComps(p.comps, <<>>, p.abs)
+               IN Path(p.abs, IF n = <<>> /\ ~p.abs THEN <<Dot>> ELSE n, FALSE)
+\* os.path.abspath(p) with working directory cwd (an absolute, normalised path)
+Abspath(cwd, p) == IF p.abs THEN Normpath(p) ELSE Normpath(Path(TRUE, cwd.comps \o p.comps, FALSE))
 \* os.path.split: (head, tail); with a trailing separator the tail is empty
 SplitHead(p) == IF p.trail THEN [p EXCEPT !.trail = FALSE] ELSE Path(p.abs, Front(p.comps), FALSE)
 SplitTail(p) == IF p.trail THEN <<>> ELSE Last(p.comps)           \* a component (sequence of syllables)
@@ -40,35 +59,55 @@ ConcatText(p, syl) == IF p.trail THEN Path(p.abs, Append(p.comps, syl), FALSE)
 \* str.replace on one component
 ReplaceSyl(c, from, to) == [i \in DOMAIN c |-> IF c[i] = from THEN to ELSE c[i]]
 
-\* p is q or lies below q (as directories, trailing separators ignored)
-Under(p, q) == /\ p.abs = q.abs /\ Len(p.comps) >= Len(q.comps)
+\* p is q or lies below q (both absolute and normalised)
+Under(p, q) == /\ Len(p.comps) >= Len(q.comps)
                /\ SubSeq(p.comps, 1, Len(q.comps)) = q.comps
-In(p) == IF Norm THEN Normpath(p) ELSE p
+In(cwd, p) == IF Norm = "abspath" THEN Abspath(cwd, p) ELSE IF Norm = "normpath" THEN Normpath(p) ELSE p
 
-\* ---- default output rules, tool by tool ----
-ChefDefault(p) == ConcatText(In(p), <<"_ck">>)                       \* plotfile + "_ck"
-MarinateDefault(p) == ConcatText(In(p), <<".pkl">>)                  \* argv[1] + ".pkl"
-Chk2pltDefault(p) ==
-  LET q == In(p)
+\* ---- default output rules, tool by tool (cwd: the working directory, p: the path as typed) ----
+ChefDefault(cwd, p) == ConcatText(In(cwd, p), <<"_ck">>)                  \* plotfile + "_ck"
+MarinateDefault(cwd, p) == ConcatText(In(cwd, p), <<".pkl">>)             \* argv[1] + ".pkl"
+Chk2pltDefault(cwd, p) ==
+  LET q == In(cwd, p)
       base == SplitTail(q)
       repl == ReplaceSyl(base, "chk", "plt")
-  IN IF Norm /\ repl = base THEN Join(SplitHead(q), base \o <<"_plt">>) ELSE Join(SplitHead(q), repl)
-MandolineDefault(p) ==                                               \* os.path.join(outroot, slicename + plotnum)
-  LET q == In(p) IN Join(SplitHead(q), <<"S", "x05000">> \o ReplaceSyl(SplitTail(q), "plt", "_"))
-CombineDefault(p1, p2) ==                                            \* basename1 + basename2, relative to the cwd
-  Path(FALSE, <<SplitTail(In(p1)) \o SplitTail(In(p2))>>, FALSE)
+  IN IF Norm # "none" /\ repl = base THEN Join(SplitHead(q), base \o <<"_plt">>) ELSE Join(SplitHead(q), repl)
+MandolineDefault(cwd, p) ==                                               \* os.path.join(outroot, slicename + plotnum)
+  LET q == In(cwd, p) IN Join(SplitHead(q), <<"S", "x05000">> \o ReplaceSyl(SplitTail(q), "plt", "_"))
+CombineDefault(cwd, p1, p2) ==                                            \* basename1 + basename2, relative to the cwd
+  Path(FALSE, <<SplitTail(In(cwd, p1)) \o SplitTail(In(cwd, p2))>>, FALSE)
 
+\* ---- invocation forms: (working directory, path as typed) ----
 Syll == {"plt", "chk", "00005", "dump"}
 Names == {<<"plt", "00005">>, <<"chk", "00005">>, <<"dump">>}
-Dirs == {<<>>, <<<<"data">>>>, <<<<"data">>, <<"run">>>>}
-InputPaths == {Path(a, d \o <<n>>, t) : a \in BOOLEAN, d \in Dirs, n \in Names, t \in BOOLEAN}
+\* directories below the work root; one has a name containing the substrings the rules replace
+Dirs == {<<>>, <<<<"data">>>>, <<<<"data">>, <<"run">>>>, <<<<"plt", "chk", "runs">>>>}
+Root == Path(TRUE, <<<<"w">>>>, FALSE)
+Form(cwd, p) == [cwd |-> cwd, p |-> p]
+InputForms ==
+     \* as typed from the work root: relative, absolute, with and without a trailing separator
+     {Form(Root, Path(FALSE, d \o <<n>>, t)) : d \in Dirs, n \in Names, t \in BOOLEAN}
+\cup {Form(Root, Path(TRUE, Root.comps \o d \o <<n>>, t)) : d \in Dirs, n \in Names, t \in BOOLEAN}
+     \* "./x", "res/../x"
+\cup {Form(Root, Path(FALSE, <<Dot>> \o d \o <<n>>, t)) : d \in Dirs, n \in Names, t \in BOOLEAN}
+\cup {Form(Root, Path(FALSE, <<<<"res">>, DotDot>> \o d \o <<n>>, t)) : d \in Dirs, n \in Names, t \in BOOLEAN}
+     \* from inside the directory: ".", and ".." from one of its level directories
+\cup {Form(Path(TRUE, Root.comps \o d \o <<n>>, FALSE), Path(FALSE, <<Dot>>, t)) : d \in Dirs, n \in Names, t \in BOOLEAN}
+\cup {Form(Path(TRUE, Root.comps \o d \o <<n, <<"L0">>>>, FALSE), Path(FALSE, <<DotDot>>, t)) : d \in Dirs, n \in Names, t \in BOOLEAN}
+Where(f) == Abspath(f.cwd, f.p)                        \* the directory the form names
 
-Beside(out, inp) == ~Under(out, Normpath(inp)) /\ out.comps # <<>> /\ Last(out.comps) # <<>>
+\* `out` (as a tool computes it, relative or absolute) names something beside, not inside, the input of form f
+Beside(out, f) == LET o == Abspath(f.cwd, out) IN
+                  /\ ~Under(o, Where(f)) /\ o.comps # <<>> /\ Last(o.comps) \notin {<<>>, Dot, DotDot}
+CwdInside(f) == Under(f.cwd, Where(f))
 DefaultBeside ==
-  \A p \in InputPaths :
-     /\ Beside(ChefDefault(p), p) /\ Beside(MarinateDefault(p), p)
-     /\ Beside(Chk2pltDefault(p), p) /\ Beside(MandolineDefault(p), p)
-     /\ \A p2 \in InputPaths : Beside(CombineDefault(p, p2), p) /\ Beside(CombineDefault(p, p2), p2)
+  \A f \in InputForms :
+     /\ Beside(ChefDefault(f.cwd, f.p), f) /\ Beside(MarinateDefault(f.cwd, f.p), f)
+     /\ Beside(Chk2pltDefault(f.cwd, f.p), f) /\ Beside(MandolineDefault(f.cwd, f.p), f)
+     \* combine's documented default is relative to the working directory: a working directory inside an input is outside the
+     \* statement (the documented default itself would then be inside that input)
+     /\ \A f2 \in {g \in InputForms : g.cwd = f.cwd} : ~CwdInside(f) /\ ~CwdInside(f2) =>
+            /\ Beside(CombineDefault(f.cwd, f.p, f2.p), f) /\ Beside(CombineDefault(f.cwd, f.p, f2.p), f2)
 
 -----------------------------------------------------------------------------
 (* Part 2: a run as file-system events *)
